@@ -13,7 +13,8 @@
             references) are drawn by `tlc -simulate` on spec/Dag_Sim.tla, which
             also checks the clauses on the model along every drawn behaviour
  3. HARNESS every program is materialised as an in-memory engine (vlib/engine.py)
-            and the REAL dag.Construct runs on it (harness/dag_h.py); the
+            and the REAL dag.Construct runs on it twice, with the factory lists
+            in package order and reversed (harness/dag_h.py); the
             algorithm tree (per node object: tag, children, ancestry, parents,
             feedback, level), Node.iter / Node.locate, the tags of svt / tt / vt
             and Construct.feedbacks are logged
@@ -43,11 +44,12 @@ import concurrent.futures
 import json
 import os
 import random
+import re
 
 from vlib import core, tlc
 
 SIM_WORKERS = 8
-SIM_PER_WORKER = {'quick': 12, 'thorough': 250}
+SIM_PER_WORKER = {'quick': 12, 'thorough': 500}
 NEED = ['edge', 'indirect-ancestor', 'feedback', 'feedback-unrelated', 'feedback-shared', 'ref-alg', 'ref-sv', 'ref-val',
         'shared-consumer', 'shared-input', 'shared-package', 'diamond']
 
@@ -81,7 +83,7 @@ def model_runs(chk, tier, seed):
     fam = {'Programs': '<- ProgramsOfTier', 'Tier': '"thorough"' if tier == 'thorough' else '"quick"'}
     per = SIM_PER_WORKER.get(tier, SIM_PER_WORKER['quick'])
     runs = {
-        'mc': ('Dag_MC.tla', dict(spec='Spec', constants=fam, invariants=['TypeOK', 'Faithful', 'OpAgrees', 'AllVisited']), 8, {}),
+        'mc': ('Dag_MC.tla', dict(spec='Spec', constants=fam, invariants=['TypeOK', 'Faithful', 'OpAgrees', 'AllVisited']), 8, dict(coverage=True)),
         'gen': ('Dag_Gen.tla', dict(spec='GenSpec', constants=fam, invariants=['GenOK', 'Emit']), 1, {}),
         'sim': (
             'Dag_Sim.tla',
@@ -98,6 +100,8 @@ def model_runs(chk, tier, seed):
             # simulation prints no "No error" line; a violated invariant or an error does show
             r = res[n]
             r.ok = r.ok or (r.rc == 0 and not r.violated and 'Error:' not in r.out)
+            mt = re.search(r'The number of states generated: (\d+)', r.out)
+            r.generated = int(mt.group(1)) if mt else 0
         _book(chk, n, m, c, res[n], mode='simulate' if n == 'sim' else None)
     cases = []
     seen = set()
@@ -115,6 +119,14 @@ def model_runs(chk, tier, seed):
         if not k:
             raise core.Machinery(f'{n} produced no cases')
         chk.counters[f'programs_{n}'] = k
+    # vacuity: every phase of the transcription was taken, and every program was carried to the end
+    cov = res['mc'].coverage
+    for act in ('Pick', 'Build', 'Feedback', 'Parents', 'Finish'):
+        if not cov.get(act, (0, 0))[0]:
+            raise core.Machinery(f'vacuous model run: action {act} never taken ({cov})')
+    if cov['Pick'][0] != chk.counters['programs_gen'] or cov['Finish'][0] < cov['Pick'][0]:
+        raise core.Machinery(f'model run incomplete: {cov["Pick"][0]} programs picked, {chk.counters["programs_gen"]} exported, {cov["Finish"][0]} finished')
+    chk.counters.update(model_programs=cov['Pick'][0], model_parents_steps=cov['Parents'][1], model_final_states=cov['Finish'][0])
     return cases
 
 
@@ -157,6 +169,7 @@ def execute(chk, pid, jobs):
             if clause.startswith(pid + '.'):
                 detail = {
                     'trace': tid,
+                    'step': ev,
                     'err': obs['err'],
                     'nodes': [{k: n[k] for k in ('tag', 'children', 'parents', 'ancestry', 'feedback')} for n in obs['nodes']],
                     'feedbacks': obs['fed'],
@@ -184,10 +197,11 @@ def run(pid, tier, seed, replay=None):
     jobs = [{'id': i + 1, 'prog': c['prog'], 'feat': c['feat'], 'src': c['src']} for i, c in enumerate(cases)]
     rows, recs = execute(chk, pid, jobs)
     # counts, measured on the records
-    n_ok = sum(1 for t in recs.values() if t['steps'][0]['obs']['ok'])
-    n_nodes = sum(len(t['steps'][0]['obs']['nodes']) for t in recs.values())
-    n_edges = sum(len(n['children']) for t in recs.values() for n in t['steps'][0]['obs']['nodes'])
-    n_fed = sum(len(t['steps'][0]['obs']['fed']) for t in recs.values())
+    allobs = [st['obs'] for t in recs.values() for st in t['steps']]
+    n_ok = sum(1 for o in allobs if o['ok'])
+    n_nodes = sum(len(o['nodes']) for o in allobs)
+    n_edges = sum(len(n['children']) for o in allobs for n in o['nodes'])
+    n_fed = sum(len(o['fed']) for o in allobs)
     if not (n_ok and n_edges and n_fed):
         raise core.Machinery(f'vacuous run: constructs={n_ok} edges={n_edges} feedbacks={n_fed}')
     nontrivial = {json.dumps(c['prog'], sort_keys=True) for c in cases if 'edge' in c['feat']}
